@@ -22,7 +22,7 @@ class P(vlib.Prop):
     ]
     rule = ("fanout (one test function per signal file: logs, metrics, traces, profiles): EVERY capability vector of "
             "length 0..5 (quick) / 0..7 (thorough) x {mutable, read-only input}, plus random vectors of length 6..12; "
-            "each with random initial content, per-consumer error results (nil / plain / multierr) and a random "
+            "each with random initial content (entries of 6 shapes: full, resource only, scope without items, default-valued / point-less items, ...; 35% of the payloads have structure but no item at all, 25% are wholly empty), per-consumer error results (nil / plain / multierr) and a random "
             "mutation script (append / set / remove programs run by declared AND undeclared writers, inline during "
             "the call or from a goroutine, between any two consumer calls and after ConsumeX returned) and a caller's context "
             "that is live / cancelled / past its deadline, ending before ConsumeX, while the k-th consumer call is in progress "
